@@ -404,4 +404,16 @@ def run_scenario(scn, *, bus="sync", chooser=None, seed=0, max_steps=None, use_s
 
     with instrument_tickers(ctx):
         res, loop = run_virtual(main, max_steps=max_steps or scn.get("max_steps", 20000), step_cost_ns=scn.get("step_cost_ns", 0))
+    if info.get("stop") == "ticks":
+        # the run is DEFINED as the history up to the end of the n_ticks-th master tick: under a delaying bus (and with
+        # callbacks for the current instant) a further tick may already have begun before the stop condition was seen
+        tid = getattr(getattr(info.get("scheduler"), "ticker", None), "_vid", None)
+        cnt = 0
+        for i, e in enumerate(trace.events):
+            if e["k"] == "t-done" and e["tid"] == tid:
+                cnt += 1
+                if cnt == n_ticks:
+                    info["dropped_after_last_tick"] = len(trace.events) - (i + 1)
+                    del trace.events[i + 1:]
+                    break
     return {"trace": trace, "result": res, "steps": loop.step, "info": info, "ctx": ctx}
